@@ -29,6 +29,6 @@ if rundemo; then echo "demo passes without patch"; else echo "DEMO FAILS WITHOUT
 if (cd $S/repo && go test -count=1 ./... > $S/base.out 2>&1); then echo "existing suite passes with patch"; else echo "EXISTING SUITE FAILS WITH PATCH"; grep -v "^ok\|no test files" $S/base.out | head -8; fi
 if rundemo; then echo "DEMO PASSES WITH PATCH (not a demonstration)"; else echo "demo fails with patch"; fi
 for p in "$@"; do
-  VERIF_REPO=$S/repo /verif/vcheck -p $p ${TIER:+-tier $TIER} ${SEED:+-seed $SEED} > $S/out.$p 2>&1; rc=$?
+  VERIF_REPO=$S/repo /verif/vcheck -p $p ${TIER:+-tier $TIER} ${SEED:+-seed $SEED} ${ONLY:+-only $ONLY} > $S/out.$p 2>&1; rc=$?
   if [ $rc = 1 ]; then echo "CAUGHT $p: $(grep -m1 -A2 -- '---- violation' $S/out.$p | tail -2 | tr '\n' ' ' | cut -c1-400)"; elif [ $rc = 0 ]; then echo "MISSED $p"; else echo "INCONCLUSIVE $p (rc=$rc): $(tail -4 $S/out.$p | tr '\n' ' ' | cut -c1-400)"; fi
 done
